@@ -684,6 +684,28 @@ def shrink_call(lib, sig, call, sigkey):
     return cur
 
 
+def pinned_plan():
+    """The witness of C28_export_reversed_bit_refuted (`f(Q, 5)` for the Python result (3, 2)) for the three decorators,
+    and the asymmetric patterns of three outputs."""
+    sigs = [{"name": "pin_det", "deco": "det", "ins": ["int"], "outs": ["int", "int"]},
+            {"name": "pin_nondet", "deco": "nondet", "ins": ["int"], "outs": ["int", "int"]},
+            {"name": "pin_raw", "deco": "raw", "ins": [], "outs": ["int", "int"]},
+            {"name": "pin_det3", "deco": "det", "ins": ["int"], "outs": ["int", "str", "int"]},
+            {"name": "pin_raw3", "deco": "raw", "ins": [], "outs": ["int", "int", "int"]}]
+    calls = []
+    for s in sigs:
+        res = (3, 2) if len(s["outs"]) == 2 else (3, "ab", 2) if "str" in s["outs"] else (7, 3, 2)
+        wrong = tuple(v + "z" if type(v) is str else v + 3 for v in res)
+        n = len(res)
+        for mask in range(1, 3 ** n):
+            digits = [(mask // 3 ** j) % 3 for j in range(n)]
+            states = [("u",) if d == 0 else ("b", res[j]) if d == 1 else ("b", wrong[j]) for j, d in enumerate(digits)]
+            for text in (False, True):
+                calls.append((s, {"ins": [23] * len(s["ins"]), "results": [res], "states": states,
+                                  "instr": [0.9] * len(s["ins"]), "text": text}))
+    return sigs, calls
+
+
 def run_stream(ctx, rng, nlibs, replay=None):
     """Generate libraries and calls (or rerun one recorded call); oracle failures go to ctx.fail.
     Returns (model lines, implementation lines, descriptions) for the correspondence with the Lean model."""
@@ -693,7 +715,7 @@ def run_stream(ctx, rng, nlibs, replay=None):
         sig, call = dec_call(replay)
         plan = [([sig], [(sig, call)])]
     else:
-        plan = []
+        plan = [pinned_plan()]
         for li in range(nlibs):
             sigs = [gen_signature(rng, k) for k in range(rng.randrange(4, 8))]
             calls = [(s, gen_call(rng, s)) for s in sigs for _ in range(rng.randrange(4, 9))]
@@ -724,7 +746,15 @@ def run_stream(ctx, rng, nlibs, replay=None):
                     pr2 = pr2 or pr
                     ctx.fail(pr2[0], dict(enc_call(sig, small), kind="export-sig"), pr2[1])
                     continue
-                ml = model_line(sig, call)
+                mcall = call
+                if real.get("text_mode"):
+                    # the answers of the (tabled) clause are a set: the model runs on the distinct result tuples
+                    ded = []
+                    for res in call["results"]:
+                        if not any(all(same_value(t, a, b) for t, a, b in zip(sig["outs"], res, r2)) for r2 in ded):
+                            ded.append(res)
+                    mcall = dict(call, results=ded)
+                ml = model_line(sig, mcall)
                 if ml is not None:
                     lines.append(ml)
                     impl.append(impl_line(sig, call, real))
